@@ -17,7 +17,7 @@ def K : Knobs :=
     skipConstraintIface := false, skipNonMethodSet := true, skipUnexportedMethod := true
     variadicType := true, variadicArg := true, defaultNames := false, freshNames := true
     guardByName := false, guardStringer := true
-    restrictedStdOnly := true, importIfUsed := true
+    restrictedStdOnly := true, importIfUsed := true, qualifyForeign := true, qualifyDirectOnly := false
     litInt := true, litFloat := true, litString := true, litComplex := true
     prefixAll := true
     replaced := []
@@ -45,6 +45,7 @@ theorem knobs_expected : knobsOf Expected.C18.facts = K := by decide
 @[simp] theorem K_guardStringer : K.guardStringer = true := rfl
 @[simp] theorem K_restrictedStdOnly : K.restrictedStdOnly = true := rfl
 @[simp] theorem K_importIfUsed : K.importIfUsed = true := rfl
+@[simp] theorem K_qualifyForeign : K.qualifyForeign = true := rfl
 @[simp] theorem K_litComplex : K.litComplex = true := rfl
 @[simp] theorem K_prefixAll : K.prefixAll = true := rfl
 @[simp] theorem K_skipUnexportedMethod : K.skipUnexportedMethod = true := rfl
